@@ -1,8 +1,9 @@
 #!/bin/bash
-# tools/sweep.sh <tier> <seeds...>   run every registered check for the given VERIF_SEED values; print one line per run
+# tools/sweep.sh <tier> <seeds...>   run every registered check (or those in $IDS) for the given VERIF_SEED values; print one line per run
 tier="$1"; shift
 cd "$(dirname "$0")/.." || exit 2
-ids=$(/venv/bin/python -c "import json;print(' '.join(c['property_id'] for c in json.load(open('MANIFEST.json'))['checks']))")
+ids="$IDS"
+[ -n "$ids" ] || ids=$(/venv/bin/python -c "import json;print(' '.join(c['property_id'] for c in json.load(open('MANIFEST.json'))['checks']))")
 for s in "$@"; do
   for c in $ids; do
     t0=$(date +%s)
